@@ -88,5 +88,12 @@ def install(cfg: Cfg, prefixes=("xarray.", "dask.", "tqdm.", "pandas.")):
     cfg.name_overrides["version"] = VStr("<pyxel version>")
     cfg.lib_overrides[("list_of", "xr")] = lambda ex, v, fr: VOpaque("xr", ex.st.fresh_int("xr"), {"label": f"list({v.info.get('label')})", "of": v})
     cfg.lib_overrides[("len", "xr")] = lambda ex, v, fr: VInt(ex.st.fresh_int("xr_len"))
+    def _with(ex, cm, item, body, fr):
+        # `with <boundary object> as x:` : x is the object itself (context-manager protocol of the library, trusted)
+        ex.st.events.append(("xr_with", cm.info.get("label"), cm))
+        if item.optional_vars is not None:
+            ex.assign(item.optional_vars, cm, fr)
+        ex.exec_block(body, fr)
+    cfg.lib_overrides[("with", "xr")] = _with
     cfg.lib_overrides[("deepcopy", "xr")] = lambda ex, v, dc, fr: VOpaque("xr", ex.st.fresh_int("xr"), dict(v.info, copied_from=v))
     return cfg
